@@ -46,9 +46,13 @@ structure HState where
   /-- `XmlEventWriter.current_level`, `pending_end_element` -/
   level : Int
   pendingEnd : Bool
+  /-- `XmlEventWriter.after_characters`: character data was written since the last tag
+  (set by the overridden `set_characters`; tracked here only while `indent` is set, it is never
+  read otherwise) -/
+  afterChars : Bool
 
 def HState.init (m : NsMap) : HState :=
-  ⟨m, none, none, [], false, none, [], 0, false⟩
+  ⟨m, none, none, [], false, none, [], 0, false, false⟩
 
 /-- result of a method: calls issued so far, then state or exception -/
 abbrev R := List Call × Except Err HState
@@ -174,7 +178,12 @@ def hEndTag (env : NsEnv) (q : Str) (s : HState) : R :=
 /-- `indent * level` -/
 def repeatStr (s : Str) (n : Int) : Str := (List.replicate n.toNat s).flatten
 
-/-- `XmlEventWriter.start_tag` (native writer: indentation around the base method) -/
+def Call.isChars : Call → Bool
+  | .chars _ => true
+  | _ => false
+
+/-- `XmlEventWriter.start_tag` (native writer: indentation around the base method; none right
+after character data, it would become part of it) -/
 def nStartTag (env : NsEnv) (cfg : Cfg) (q : Str) (s : HState) : R :=
   match hStartTag env q s with
   | (c, .error e) => (c, .error e)
@@ -182,8 +191,17 @@ def nStartTag (env : NsEnv) (cfg : Cfg) (q : Str) (s : HState) : R :=
     match cfg.indent with
     | none => (c, .ok s1)
     | some ind =>
-      let c' := if s1.level != 0 then c ++ [Call.ws ['\n'], Call.ws (repeatStr ind s1.level)] else c
-      (c', .ok { s1 with level := s1.level + 1, pendingEnd := false })
+      let c' := if s1.level != 0 && !s1.afterChars then c ++ [Call.ws ['\n'], Call.ws (repeatStr ind s1.level)] else c
+      (c', .ok { s1 with level := s1.level + 1, pendingEnd := false, afterChars := false })
+
+/-- `set_data` of the native writer: `set_characters` is overridden to set `after_characters` -/
+def nSetData (env : NsEnv) (cfg : Cfg) (v : Val) (s : HState) : R :=
+  match cfg.indent with
+  | none => hSetData env v s
+  | some _ =>
+    match hSetData env v s with
+    | (c, .ok s1) => (c, .ok { s1 with afterChars := s1.afterChars || c.any Call.isChars })
+    | r => r
 
 /-- `XmlEventWriter.end_tag` -/
 def nEndTag (env : NsEnv) (cfg : Cfg) (q : Str) (s : HState) : R :=
@@ -191,12 +209,12 @@ def nEndTag (env : NsEnv) (cfg : Cfg) (q : Str) (s : HState) : R :=
   | none => hEndTag env q s
   | some ind =>
     let s0 := { s with level := s.level - 1 }
-    let c0 := if s0.pendingEnd then [Call.ws ['\n'], Call.ws (repeatStr ind s0.level)] else []
-    match hEndTag env q s0 with
+    let c0 := if s0.pendingEnd && !s0.afterChars then [Call.ws ['\n'], Call.ws (repeatStr ind s0.level)] else []
+    match hEndTag env q { s0 with afterChars := false } with
     | (c, .error e) => (c0 ++ c, .error e)
     | (c, .ok s1) =>
       let c' := if s1.level == 0 then c0 ++ c ++ [Call.ws ['\n']] else c0 ++ c
-      (c', .ok { s1 with pendingEnd := true })
+      (c', .ok { s1 with pendingEnd := true, afterChars := c.any Call.isChars })
 
 /-- one iteration of the loop in `EventHandler.write`; `native` selects the
 `XmlEventWriter` overrides -/
@@ -204,7 +222,7 @@ def hStep (env : NsEnv) (cfg : Cfg) (native : Bool) (s : HState) : Ev → R
   | .start q => if native then nStartTag env cfg q s else hStartTag env q s
   | .end_ q => if native then nEndTag env cfg q s else hEndTag env q s
   | .attr q v => hAddAttribute env q v false s
-  | .data v => hSetData env v s
+  | .data v => if native then nSetData env cfg v s else hSetData env v s
   | .unknown => ([], .error .xmlWriterError)
 
 /-- the event loop: all calls issued, and the exception that stopped it (if any) -/
@@ -229,10 +247,25 @@ def rootAttrs (env : NsEnv) (cfg : Cfg) (s : HState) : Except Err HState :=
   | .error e => .error e
   | .ok s1 => rootAttr1 env cfg.noNsSchemaLocation env.xsiNoNsSchemaLocation s1
 
+def xmlnsNsLit : Str :=
+  ['h', 't', 't', 'p', ':', '/', '/', 'w', 'w', 'w', '.', 'w', '3', '.', 'o', 'r', 'g', '/', '2', '0', '0', '0', '/',
+   'x', 'm', 'l', 'n', 's', '/']
+
+/-- one entry of `EventHandler.validate_prefixes`: `true` = accepted -/
+def prefixEntryOK (env : NsEnv) (e : Pfx × Str) : Bool :=
+  !((match e.1 with | some p => !p.isEmpty && !env.isNcnamePy p | none => false)
+    || e.1 == some ['x', 'm', 'l', 'n', 's']
+    || ((e.1 == some env.xmlPrefix) != (e.2 == env.xmlUri))
+    || e.2 == xmlnsNsLit)
+
+/-- `EventHandler.validate_prefixes(ns_map)` passes (otherwise `XmlWriterError` in `__init__`) -/
+def prefixesValid (env : NsEnv) (m : NsMap) : Bool := m.all (prefixEntryOK env)
+
 /-- `EventHandler.write(events)` after `XmlSerializer.write` cleaned the user
 map: the SAX calls the content handler receives and the exception raised, if any -/
 def handlerRun (env : NsEnv) (cfg : Cfg) (native : Bool) (userMap : List (Pfx × Str))
     (es : List Ev) : List Call × Option Err :=
+  if !prefixesValid env (serializerNsMap userMap) then ([], some .xmlWriterError) else
   match rootAttrs env cfg (HState.init (serializerNsMap userMap)) with
   | .error e => ([], some e)
   | .ok s0 => hLoop env cfg native s0 es
